@@ -341,6 +341,8 @@ func (pe *PolicyEngine) insertNamespace(ns *corev1.Namespace) error {
 		return err
 	}
 	pe.namespacesMap[nsObj.Name] = nsObj
+	// clear the cache on namespace changes (namespace labels affect the cached connection results)
+	pe.cache.clear()
 	return nil
 }
 
@@ -494,6 +496,8 @@ func (pe *PolicyEngine) insertAdminNetworkPolicy(anp *apisv1a.AdminNetworkPolicy
 	}
 	pe.adminNetpolsMap[anp.Name] = true
 	pe.sortedAdminNetpols = append(pe.sortedAdminNetpols, (*k8s.AdminNetworkPolicy)(anp))
+	// clear the cache on admin netpols changes
+	pe.cache.clear()
 	return nil
 }
 
@@ -511,11 +515,15 @@ func (pe *PolicyEngine) insertBaselineAdminNetworkPolicy(banp *apisv1a.BaselineA
 		return errors.New(netpolerrors.BANPNameAssertion)
 	}
 	pe.baselineAdminNetpol = (*k8s.BaselineAdminNetworkPolicy)(banp)
+	// clear the cache on baseline admin netpol changes
+	pe.cache.clear()
 	return nil
 }
 
 func (pe *PolicyEngine) deleteNamespace(ns *corev1.Namespace) error {
 	delete(pe.namespacesMap, ns.Name)
+	// clear the cache on namespace changes
+	pe.cache.clear()
 	return nil
 }
 
@@ -585,6 +593,8 @@ func (pe *PolicyEngine) deleteAdminNetworkPolicy(anp *apisv1a.AdminNetworkPolicy
 			break
 		}
 	}
+	// clear the cache on admin netpols changes
+	pe.cache.clear()
 	return nil
 }
 
@@ -593,6 +603,8 @@ func (pe *PolicyEngine) deleteBaselineAdminNetworkPolicy(banp *apisv1a.BaselineA
 		// @TBD : should keep this if? no other banps are in the resources (illegal)
 		pe.baselineAdminNetpol = nil
 	}
+	// clear the cache on baseline admin netpol changes
+	pe.cache.clear()
 	return nil
 }
 
